@@ -322,8 +322,9 @@ func verifyDelayPeriodPassed(
 	}
 	currentTimestamp := uint64(ctx.BlockTime().UnixNano())
 	validTime := processedTime + delayPeriod
-	// NOTE: delay period is inclusive, so if currentTimestamp is validTime, then we return no error
-	if validTime > currentTimestamp {
+	// NOTE: delay period is inclusive, so if currentTimestamp is validTime, then we return no error.
+	// validTime < processedTime means the sum wrapped around: the delay cannot have passed.
+	if validTime < processedTime || validTime > currentTimestamp {
 		return errorsmod.Wrapf(
 			ErrDelayPeriodNotPassed,
 			"cannot verify packet until time: %d, current time: %d",
